@@ -571,7 +571,20 @@ class CallMixin:
         if not inline_ok:
             if c is not None:
                 return self.apply_contract(c, finfo, fv.bound_self, args, kwargs, lineno)
-            raise Unsupported(f"callee {finfo.key} has no contract (called at line {lineno} of {self.cur_func})")
+            # A callee of the real code that nobody put under contract (typically a helper a change has just introduced):
+            # its body is executed in place, which is exact, instead of giving the unit up as UNDECIDED. Not for recursion
+            # (directly or through other auto-inlined callees); loops inside still need invariants and stay Unsupported.
+            stack = getattr(self, "_auto_inline_stack", None)
+            if stack is None:
+                stack = self._auto_inline_stack = []
+            if is_spec or finfo.key in stack or len(stack) >= 3 or finfo.kind in ("property",):
+                raise Unsupported(f"callee {finfo.key} has no contract (called at line {lineno} of {self.cur_func})")
+            stack.append(finfo.key)
+            try:
+                self.ufs_used.add(f"uncontracted callee {finfo.key} executed in place (its body is part of this unit's proof)")
+                return self.inline_call(finfo, fv.bound_self, fv.closure, args, kwargs, fr, lineno)
+            finally:
+                stack.pop()
         return self.inline_call(finfo, fv.bound_self, fv.closure, args, kwargs, fr, lineno)
 
     def inline_call(self, finfo, bound_self, closure, args, kwargs, fr, lineno):
